@@ -42,6 +42,15 @@ CLAIMED = {
  "C03": ("exploration", "exhaustive enumeration of all lattice quadratics, cubics and canonical arcs, two-segment chains and two-subpath paths x a tolerance menu against dense curve evaluation",
          "All 2401 quadratics ([-3..3]^4), 15625 cubics ([-2..2]^6, incl. cusps, loops, inflections, collinear and coincident control points), 7680 canonical arcs, all 2-segment chains over a 12-curve menu and 2-subpath paths x tolerances {1,0.1,0.01} (thorough +0.001, coordinate scales 0.01 and 100): Flatten keeps structure/end points/closedness, every vertex within t of the curve in curve order, every curve point within c*t of the polyline; ReplaceArcs within 3e-3 rx; XMonotone pieces x-monotone and the same point set.",
          "trusted: internal/oracle/curves.go; c = max(2, 1.3 x the maximum observed once per (shape class, t/scale) cell on the pinned tree, /verif/calibration.json) for the classes whose error/t is bounded, c = 2 otherwise; four known findings keyed by input-only predicates (collinear/closed Beziers, cusps, ellipse arcs, one cubic family at a coarse tolerance)", "DESIGN.md §3 C03"),
+ "C10": ("model_checking", "explicit-state search over builder call histories on the real Path (exact deduplicated state graph to depth 3/4), with an independent validator in every state and a requested-geometry reference model on every transition",
+         "BFS over 61 builder calls (MoveTo/LineTo over the 3x3 lattice, QuadTo, CubeTo, ArcTo with radii/flag menus, Arc, Close, Join, Append) plus 30 shape sources and ParseSVGPath(String()); every distinct Data() state is validated (decodable from both ends, subpaths start with MoveTo, Close returns to the start, no zero-length segments, valid arcs); every transition is compared with a model of the requested geometry (only zero-length commands may vanish, only same-direction collinear lines may merge); on every distinct state 77 query/derivation calls are run under recover and receiver, arguments, argument slices and Paths are deep-compared before/after.",
+         "trusted: the request model (written from the doc comments), internal/oracle decoder; two known findings keyed by input predicates (MoveTo directly followed by Close; receiver with an open subpath in boolean operations)", "DESIGN.md §4 C10"),
+ "C11": ("model_checking", "printer round trips on every distinct state of the C10 search; exhaustive enumeration of all short byte strings and one-byte mutations for the parsers",
+         "On every distinct C10 state: ParseSVGPath(String()) equals the path; ParseSVGPath(ToSVG()) is geometrically the path to the output precision (Precision 8 and 3); ToPDF and ToPS are executed by independent mini interpreters and must trace the same dense geometry. Parsers: all byte strings of length <= 5 (6) over a 20-symbol alphabet, all one-byte deletions/truncations/substitutions of 30 valid path strings, and ParseSVG on mutated small documents must return a value or an error (no panic, no hang) and every parsed path must pass the C10 validator.",
+         "trusted: the mini PDF/PS interpreters (operator definitions from the specs and the PS prologue the back-end emits); tolerance 10^(1-Precision)*scale; one known finding (exact case)", "DESIGN.md §4 C11"),
+ "C15": ("model_checking", "exhaustive enumeration of all Context call histories up to depth 4 (5) on the real Context/Canvas against an independent matrix-and-style stack machine",
+         "All histories over 52 Context calls (Push/Pop, 4 coordinate systems, setters, dashes, view compositions, SetView/SetCoordView, z-index, DrawPath/DrawText/DrawImage, Fill/Stroke) are run on a recording renderer and on a Canvas; the recorded renderer calls (count, order by z-index then draw order, path data, style incl. dash values at draw time, matrices to 1e-12, text/image un-flipping) must equal what an independent model written from the doc comments predicts; Context state after the history and after popping everything; Canvas replay, RenderViewTo, Transform, Clip and Fit(margin) are checked on every history.",
+         "trusted: the reference machine (own 2x3 algebra, doc comments); a recorded dash pattern passes if it is equivalent under either reading of the dash unit (millimetres per the doc comment, stroke widths per the renderers), the difference is tallied", "DESIGN.md §4 C15"),
 }
 CUSTOM_CMD = {"C20": ("scripts/check_c20.sh quick", "scripts/check_c20.sh thorough")}
 REASON_PENDING = "check not built yet in this session (planned in DESIGN.md §9); not claimed until it exists and is green"
